@@ -139,12 +139,12 @@ func solveOne(o *Obligation, goal, suffix, workDir string, secs int, all bool) O
 	ctx, cancel := context.WithCancel(context.Background())
 	defer cancel()
 	nruns := len(solvers)
-	ch := make(chan SolverAnswer, 3*len(solvers))
+	ch := make(chan SolverAnswer, 6*len(solvers)+2)
 	// staged start: one solver per variant first (the combinations that win most often), the
 	// remaining combinations only when nothing has answered after two seconds
 	late := func(vi int, sp solverSpec) bool {
-		first := map[int]string{0: "z3-new", 1: "z3", 2: "cvc5"}
-		if !o.HasInstanceVariant() || o.Cover {
+		first := map[int]string{0: "z3-new", 1: "z3", 2: "cvc5", 3: "z3-new", 4: "cvc5"}
+		if !(o.HasInstanceVariant() || o.HasPlus()) || o.Cover {
 			return false
 		}
 		return first[vi] != sp.name
@@ -169,13 +169,22 @@ func solveOne(o *Obligation, goal, suffix, workDir string, secs int, all bool) O
 			ch <- runSolver(ctx, sp, file, secs)
 		}(sp)
 	}
-	if o.HasInstanceVariant() {
-		// second variant: quantified loop-invariant assumptions replaced by their instances at the
-		// goal's skolem constants (fewer assumptions: an unsat answer is equally valid)
-		for vi, tag := range []string{"", ".light", ".inst"} {
-			if vi == 0 {
-				continue
-			}
+	if (o.HasInstanceVariant() || o.HasPlus()) && !o.Cover {
+		// further variants of the same obligation with fewer (or, for the "plus" ones, additional
+		// goal-directed) assumptions; unsat on any of them discharges it
+		type vt struct {
+			v   int
+			tag string
+		}
+		var vts []vt
+		if o.HasInstanceVariant() {
+			vts = append(vts, vt{1, ".light"}, vt{2, ".inst"})
+		}
+		if o.HasPlus() {
+			vts = append(vts, vt{3, ".plus"}, vt{4, ".fullplus"})
+		}
+		for _, x := range vts {
+			vi, tag := x.v, x.tag
 			fileV := filepath.Join(workDir, safeFile(o.Name)+suffix+tag+".smt2")
 			os.WriteFile(fileV, []byte(o.scriptV(false, vi, goal)), 0o644)
 			nruns += len(solvers)
@@ -187,7 +196,7 @@ func solveOne(o *Obligation, goal, suffix, workDir string, secs int, all bool) O
 					}
 					a := runSolver(ctx, sp, fileV, secs)
 					if a.Result == "sat" {
-						a.Result = "unknown" // a model of a weaker variant refutes nothing
+						a.Result = "unknown" // a model of a variant with other assumptions refutes nothing
 					}
 					a.Solver += "/" + tag[1:]
 					ch <- a
@@ -361,6 +370,9 @@ func splitSolve(ctx context.Context, o *Obligation, script, goal, file string, s
 	scripts := []string{script}
 	if o.HasInstanceVariant() {
 		scripts = append(scripts, o.scriptV(false, 2, goal))
+		if o.HasPlus() {
+			scripts = append(scripts, o.scriptV(false, 3, goal), o.scriptV(false, 4, goal))
+		}
 	}
 	n := 1 << len(conds)
 	results := make([]string, n)
